@@ -9,10 +9,11 @@ class C12(vlib.Spec):
     props_vo = "theories/Props/C12.vo"
     theorems = ["C12_map", "C12_map_terminates", "C12_filter", "C12_filter_terminates",
                 "C12_filter_map", "C12_filter_map_terminates",
-                "C12_unzip_partial", "C12_unzip_terminates", "C12_fanout_partial", "C12_fanout_terminates",
+                "C12_flat_map", "C12_flatten", "C12_unzip_partial", "C12_unzip_terminates", "C12_fanout_partial", "C12_fanout_terminates",
                 "C12_fanout_strict_refuted", "C12_unzip_strict_refuted"]
     crate, group, binary = "h_push", "light", "h_push"
     shrink_rounds = 20
+    level = "other"
     imports = "From Coq Require Import List NArith.\nImport ListNotations.\nFrom HV Require Import Push.Model Push.Run."
     trusted_base = ["coqc 8.16.1 kernel (vm_compute used for case evaluation only)",
                     "hand transcription of dfir_pipes/src/push/*.rs into coq/theories/Push/Model.v",
